@@ -220,6 +220,11 @@ func genClock0(r *rand.Rand, l Layout) int64 {
 	}
 	hi := int64(math.MaxInt32) - l.MaxRet() - 400*86400
 	t := between(r, lo, hi)
+	if r.IntN(25) == 0 {
+		// edge clock domain: after January 2038 (unsigned 32-bit timestamps,
+		// signed 32-bit durations)
+		t = between(r, int64(math.MaxInt32)+l.MaxRet()+1, int64(math.MaxUint32)-3*400*86400-l.MaxRet())
+	}
 	switch r.IntN(4) {
 	case 0:
 		t -= t % l.MaxStep()
